@@ -73,7 +73,10 @@ def find(objs, path):
                 pass
     for o in objs:
         if o.get('name') == parts[0]:
-            if len(parts) == 1: res.append(o)
+            if len(parts) == 1:
+                if o.get('kind') == 'FunctionTemplateDecl':
+                    res += [x for x in o.get('inner', []) if x.get('kind') == 'FunctionDecl'][:1]
+                else: res.append(o)
             else:
                 # descend: ClassTemplateDecl -> CXXRecordDecl(name same)
                 stack = [o]
